@@ -226,7 +226,7 @@ func callKey(caller *ssa.Function, ci ssa.CallInstruction) string {
 		ci  ssa.CallInstruction
 	}
 	var same []pc
-	for _, b := range caller.Blocks {
+	for _, b := range theCtx.GB(caller) {
 		for _, ins := range b.Instrs {
 			if c2, ok := ins.(ssa.CallInstruction); ok && calleeName(c2) == name {
 				same = append(same, pc{c2.Pos(), c2})
@@ -347,7 +347,7 @@ func (e *EF) computeClosedFields() {
 	open := map[*types.Var]bool{}
 	seen := map[*types.Var]bool{}
 	for _, fn := range e.c.modFuncs {
-		for _, b := range fn.Blocks {
+		for _, b := range theCtx.GB(fn) {
 			for _, ins := range b.Instrs {
 				st, ok := ins.(*ssa.Store)
 				if !ok {
@@ -380,7 +380,7 @@ func (e *EF) computeClosedFields() {
 	// a struct that is ever stored as a whole value (other than the zero value) could carry
 	// an interface from anywhere: open all its interface fields
 	for _, fn := range e.c.modFuncs {
-		for _, b := range fn.Blocks {
+		for _, b := range theCtx.GB(fn) {
 			for _, ins := range b.Instrs {
 				st, ok := ins.(*ssa.Store)
 				if !ok {
@@ -476,7 +476,7 @@ func (e *EF) fnMayFail(fn *ssa.Function) bool {
 		}
 		return false
 	}
-	for _, b := range fn.Blocks {
+	for _, b := range theCtx.GB(fn) {
 		for _, ins := range b.Instrs {
 			ret, ok := ins.(*ssa.Return)
 			if !ok {
@@ -683,6 +683,21 @@ func (r *efRun) run() {
 				delete(s.other, v)
 				delete(s.tested, v)
 			}
+		}
+	}
+	w.EnterInline = func(p *PState, callee *ssa.Function) {
+		s := p.U.(*efState)
+		for v := range s.defined {
+			if v.Parent() != callee {
+				continue
+			}
+			if r.final {
+				r.checkRedef(p, v)
+			}
+			delete(s.defined, v)
+			delete(s.consumed, v)
+			delete(s.other, v)
+			delete(s.tested, v)
 		}
 	}
 	if os.Getenv("XZVERIFY_NOMERGE") == "" {
@@ -1032,7 +1047,7 @@ func (r *efRun) exit(p *PState, ins ssa.Instruction) {
 // eofTestKey: "<function>:eof-test#<ordinal of the If among the function's io.EOF tests>".
 func (r *efRun) eofTestKey(site *ssa.If) string {
 	var poss []token.Pos
-	for _, b := range r.fn.Blocks {
+	for _, b := range theCtx.GB(r.fn) {
 		for _, ins := range b.Instrs {
 			iff, ok := ins.(*ssa.If)
 			if !ok {
@@ -1148,7 +1163,7 @@ func (e *EF) Origins(in map[*ssa.Function]bool) (read, write []string) {
 		if in != nil && !in[fn] {
 			continue
 		}
-		for _, b := range fn.Blocks {
+		for _, b := range theCtx.GB(fn) {
 			for _, ins := range b.Instrs {
 				ci, ok := ins.(ssa.CallInstruction)
 				if !ok {
